@@ -228,4 +228,36 @@ theorem lin_all (A : Eff Content MetaRec WalRec LogRec → Prop) (d0 : Disk Cont
     simp only [effsOf, List.mem_filterMap]
     exact ⟨_, hev, rfl⟩
 
+/-! ## Order: the volatile effects are always in Begin order
+
+Every block of the linearisation is a sub-list of the volatile list at the time of the flush and the tail is the
+volatile list itself, so inside a block and inside the tail the effects appear in Begin order.  Two effects of one file
+appear in `lin` against their Begin order only if an fsync made the LATER one durable while the EARLIER one, still in
+flight when that fsync began, stayed volatile — two overlapping writes, whose relative order on the medium is not
+determined by the trace anyway when they touch the same page, and which commute otherwise (`applyEff_comm`). -/
+
+theorem cstep_volEffs_sublist (s : CState Content MetaRec WalRec LogRec) (ev : CEv Content MetaRec WalRec LogRec) :
+    List.Sublist (cstep s ev).volEffs (s.volEffs ++ begun [ev]) := by
+  cases ev with
+  | effBegin id e => simp [cstep, CState.volEffs, begun]
+  | effEnd id => simp [cstep, CState.volEffs, begun, markEnded_effs]
+  | fsyncBegin tid f => simp [cstep, CState.volEffs, begun]
+  | fsyncEnd tid f =>
+    simp only [cstep, begun, List.filterMap_cons, List.filterMap_nil, List.append_nil]
+    cases takeCSync f tid s.syncs with
+    | none => exact List.Sublist.refl _
+    | some x => exact (List.filter_sublist).map _
+
+/-- the volatile effects of the concurrent state are a sub-list, in Begin order, of the effects begun -/
+theorem volEffs_sublist_begun (s : CState Content MetaRec WalRec LogRec) (ct : List (CEv Content MetaRec WalRec LogRec)) :
+    List.Sublist (crun s ct).volEffs (s.volEffs ++ begun ct) := by
+  induction ct generalizing s with
+  | nil => simp [crun, begun]
+  | cons ev ct ih =>
+    have hb : begun (ev :: ct) = begun [ev] ++ begun ct := by
+      simp [begun, List.filterMap_cons]
+      cases ev <;> simp
+    rw [crun_cons, hb, ← List.append_assoc]
+    exact (ih (cstep s ev)).trans ((cstep_volEffs_sublist s ev).append_right _)
+
 end NomtDisk
